@@ -27,6 +27,8 @@ fn run_inner(sc: &J) -> Result<Option<String>, String> {
                     if !v.validate(&schema) { return Ok(Some(format!("decode returned Ok({v:?}) which does not validate against the schema"))); }
                     match apache_avro::to_avro_datum(&schema, v.clone()) {
                         Ok(re) => { let consumed = bytes.len() - rd.len();
+                            // the input is a (possibly truncated) canonical encoding: what was accepted must re-encode to the bytes consumed
+                            if sc["canonical"].as_bool().unwrap_or(false) && re[..] != bytes[..consumed] { return Ok(Some(format!("decode accepted {consumed} input bytes {:02x?} but the value re-encodes to {} bytes (a truncated datum was completed with invented content)", &bytes[..consumed.min(16)], re.len()))); }
                             let mut rd2 = &re[..];
                             match apache_avro::from_avro_datum(&schema, &mut rd2, None) { Ok(v2) if v2 == v => {}, other => return Ok(Some(format!("re-decode differs: {other:?} vs {v:?}"))) }
                             let _ = consumed; Ok(None) }
@@ -277,6 +279,76 @@ fn run_inner(sc: &J) -> Result<Option<String>, String> {
                 Ok(n) => if sink.data != good || n != n_good { Ok(Some(format!("write_ser returned Ok({n}) but the sink holds {} bytes, an in-memory buffer holds {} ({n_good} reported)", sink.data.len(), good.len()))) } else { Ok(None) },
                 Err(_) => Ok(None),
             }
+        }
+        // C06/C05/C14: systematic truncation sweep over a built-in corpus of (schema, value) pairs — every proper prefix of a
+        // canonical encoding must be rejected or decode to a value whose re-encoding is exactly the consumed bytes;
+        // payload lengths straddle 2^7, 2^14, 2^16 (+1) so size-dependent code paths are exercised.
+        "truncation_sweep" => {
+            let seed = sc["seed"].as_u64().unwrap_or(0);
+            let mut corpus: Vec<(String, Value)> = Vec::new();
+            for n in [0usize, 1, 63, 64, 127, 128, 8191, 8192, 16383, 16384, 65535, 65536, 65537, 70000, 131073] {
+                corpus.push(("\"bytes\"".into(), Value::Bytes((0..n).map(|i| (i as u64 * 31 + seed) as u8).collect())));
+                corpus.push(("\"string\"".into(), Value::String((0..n).map(|i| (b'a' + ((i as u64 + seed) % 26) as u8) as char).collect())));
+            }
+            corpus.push(("{\"type\":\"array\",\"items\":\"long\"}".into(), Value::Array((0..300).map(|i| Value::Long(i * 77 - 5000)).collect())));
+            corpus.push(("{\"type\":\"array\",\"items\":\"string\"}".into(), Value::Array(vec![Value::String("x".repeat(70000)), Value::String("yz".into())])));
+            corpus.push(("{\"type\":\"map\",\"values\":\"bytes\"}".into(), Value::Map([("k".to_string(), Value::Bytes(vec![7; 66000]))].into_iter().collect())));
+            corpus.push(("[\"null\",\"string\",\"long\"]".into(), Value::Union(1, Box::new(Value::String("q".repeat(300))))));
+            corpus.push(("{\"type\":\"record\",\"name\":\"r\",\"fields\":[{\"name\":\"a\",\"type\":\"long\"},{\"name\":\"b\",\"type\":\"bytes\"},{\"name\":\"c\",\"type\":\"double\"}]}".into(),
+                Value::Record(vec![("a".into(), Value::Long(i64::MIN)), ("b".into(), Value::Bytes(vec![1; 65600])), ("c".into(), Value::Double(1.5))])));
+            for (st, v) in corpus {
+                let schema = Schema::parse_str(&st).map_err(|e| e.to_string())?;
+                let full = apache_avro::to_avro_datum(&schema, v.clone()).map_err(|e| e.to_string())?;
+                let mut cuts: Vec<usize> = (0..full.len().min(40)).collect();
+                let mut x = seed.wrapping_mul(6364136223846793005).wrapping_add(1442695040888963407);
+                for _ in 0..40 { x = x.wrapping_mul(6364136223846793005).wrapping_add(1442695040888963407); if full.len() > 1 { cuts.push((x >> 33) as usize % full.len()); } }
+                if full.len() > 2 { cuts.push(full.len() - 1); cuts.push(full.len() / 2); }
+                for c in cuts {
+                    if c >= full.len() { continue; }
+                    let mut rd = &full[..c];
+                    if let Ok(got) = apache_avro::from_avro_datum(&schema, &mut rd, None) {
+                        let consumed = c - rd.len();
+                        let re = apache_avro::to_avro_datum(&schema, got.clone()).unwrap_or_default();
+                        if got == v || re[..] != full[..consumed] {
+                            return Ok(Some(format!("schema {st}: the encoding ({} bytes) cut at {c} decodes Ok to a value that re-encodes to {} bytes (consumed {consumed})", full.len(), re.len())));
+                        }
+                    }
+                }
+                // and the full encoding round-trips, consuming everything
+                let mut rd = &full[..];
+                match apache_avro::from_avro_datum(&schema, &mut rd, None) { Ok(got) if got == v && rd.is_empty() => {}, other => return Ok(Some(format!("schema {st}: full encoding does not round-trip: {:?}", other.map(|_| "different value / leftover")))) }
+            }
+            Ok(None)
+        }
+        // C07: validate(value, schema) accepts => every validating writer encodes it and the bytes decode to the canonical
+        // form of the value; validate rejects => the write fails and no byte reaches the output
+        "validate_write" => {
+            let schema = Schema::parse_str(sc["schema"].as_str().ok_or("schema")?).map_err(|e| e.to_string())?;
+            let value = crate::dsl(&sc["value"])?;
+            let w = apache_avro::writer::datum::GenericDatumWriter::builder(&schema).build().map_err(|e| e.to_string())?;
+            let mut out = Vec::new();
+            let res = w.write_value_ref(&mut out, &value);
+            if value.validate(&schema) {
+                if let Err(e) = res { return Ok(Some(format!("validate accepts {value:?} but the datum writer fails: {e} (after writing {} bytes)", out.len()))); }
+                let mut rd = &out[..];
+                match apache_avro::from_avro_datum(&schema, &mut rd, None) {
+                    Ok(back) => {
+                        if !rd.is_empty() { return Ok(Some(format!("bytes {:02x?} are not exactly one datum", out))); }
+                        if !back.validate(&schema) { return Ok(Some(format!("decoded {back:?} does not validate"))); }
+                        if let Ok(canon) = value.clone().resolve(&schema) { if canon != back { return Ok(Some(format!("written bytes decode to {back:?}, the value's canonical form is {canon:?}"))); } }
+                    }
+                    Err(e) => return Ok(Some(format!("validate accepts {value:?}, written bytes {:02x?} do not decode: {e}", out))),
+                }
+                // container and single-object writers must accept it too
+                let mut cw = apache_avro::Writer::new(&schema, Vec::new()).map_err(|e| e.to_string())?;
+                if let Err(e) = cw.append_value_ref(&value) { return Ok(Some(format!("validate accepts the value but Writer::append_value_ref fails: {e}"))); }
+                let mut sw = apache_avro::GenericSingleObjectWriter::new_with_capacity(&schema, 32).map_err(|e| e.to_string())?;
+                if let Err(e) = sw.write_value_ref(&value, &mut Vec::new()) { return Ok(Some(format!("validate accepts the value but the single-object writer fails: {e}"))); }
+            } else {
+                if res.is_ok() { return Ok(Some(format!("validate rejects {value:?} but the validating writer returned Ok"))); }
+                if !out.is_empty() { return Ok(Some(format!("validate rejects the value but {} byte(s) reached the output", out.len()))); }
+            }
+            Ok(None)
         }
         k => Err(format!("unknown scenario kind {k:?}")),
     }
